@@ -46,6 +46,10 @@ func main() {
 		workerMain(os.Args[2:])
 		return
 	}
+	if len(os.Args) >= 3 && os.Args[1] == "--coldstart" {
+		seed, _ := strconv.ParseInt(os.Args[2], 10, 64)
+		os.Exit(props.ColdStartChild(seed))
+	}
 	if len(os.Args) >= 3 && os.Args[1] == "--expand" {
 		props.DebugExpand(os.Args[2], len(os.Args) > 3)
 		return
@@ -479,6 +483,9 @@ func runChunk(p *core.Property, exe, tier string, seed int64, c chunk, tmp strin
 		cmd.Stderr = ef
 		cmd.Stdout = ef
 		cmd.Env = append(os.Environ(), "GOTRACEBACK=single")
+		if p.Race {
+			cmd.Env = append(cmd.Env, "GORACE=halt_on_error=0 log_path="+filepath.Join(work, "race"))
+		}
 		timedOut := false
 		if err := cmd.Start(); err != nil {
 			agg.mu.Lock()
